@@ -138,7 +138,8 @@ impl ParseError {
             false => env.len(),
         };
         // 截取字符，生成环境
-        env[char_range_left..char_range_right].into()
+        // * 🚩头索引可能已越过环境末尾（如未闭合的括弧被直接跳过）：左边界不得超过右边界
+        env[char_range_left.min(char_range_right)..char_range_right].into()
     }
 
     /// 构造函数
